@@ -257,6 +257,7 @@ func GvcDynTypeIs(x any, name string) bool { panic("gvc") }
 
 type GvcArr[K comparable, V any] struct{ _ [0]func(K) V }
 
+func GvcEq[T any](a, b T) bool { panic("gvc") }
 func GvcAget[K comparable, V any](a GvcArr[K, V], k K) V               { panic("gvc") }
 func GvcAset[K comparable, V any](a GvcArr[K, V], k K, v V) GvcArr[K, V] { panic("gvc") }
 
